@@ -41,10 +41,10 @@ def build(rep, variant=0):
     if k == 'prod':
         return tensor.TensorProd(*(build(f, variant) for f in rep['fs']))
     if k == 'op':
+        if rep.get('eye'):
+            return tensor.CanonicalOperator.eye(tuple(len(M) for M in rep['ts'][0]))
         fmt = ('csr', 'csc')[variant % 2]
         terms = [tuple(sp.csr_matrix(np.array(M, dtype=float)).asformat(fmt) for M in t) for t in rep['ts']]
-        if variant % 3 == 2:
-            terms = [list(t) for t in terms]      # CanonicalOperator.eye builds its terms as lists, too
         return tensor.CanonicalOperator(terms)
     raise ValueError(k)
 
